@@ -174,6 +174,10 @@ func c04kBoolReads(p *Program, info *types.Info, e ast.Node, depth int, out map[
 				return true
 			}
 		case *ast.CallExpr:
+			if op := c04FlagOpOf(p, info, t); op != nil {
+				out[op.path] = true // a flag behind sync/atomic (c04atomic.go)
+				return false
+			}
 			if fn := calleeOf(info, t); fn != nil {
 				if fi := p.FuncOfObj(fn); fi != nil && fi.Decl.Body != nil && len(fi.Decl.Body.List) <= 3 {
 					c04kBoolReads(p, fi.Pkg.TypesInfo, fi.Decl.Body, depth+1, out)
